@@ -49,7 +49,7 @@ def file_item(path, kind):
             for v in _re.findall(r"[A-Za-z_]\w*", g):
                 if v not in names:
                     names.append(v)
-        goals = more_goals(goals, names, cap=9)
+        goals = more_goals(goals, names, cap=7)
     it = {"id": f"{kind}-{name}", "text": text, "T": None, "origin": path,
           "goals": goals,
           "points": json.loads(meta["points"]) if "points" in meta else "auto",
@@ -665,7 +665,7 @@ def fixed_templates():
     return items
 
 
-def more_goals(goals, variables, cap=12):
+def more_goals(goals, variables, cap=9):
     """the listed goals plus mixed second moments of the (few) program variables: many wrong results only show in a
     product of two variables that the listed goals happen not to contain"""
     vs = [v for v in variables if not v.startswith("_")][:5]
